@@ -189,7 +189,7 @@ def run(ck):
     for c in cases[:3]:
         ck.sample({"rule": c["rule"][:600], "docs": c["_docs"][:2], "crate": common.strip_extra(impl[c["id"]])[:300]})
     common.compare(ck, send, impl, model, "optimiser passes + solver on optimised trees (16 switch sets)",
-                   "coalesce_exact, rewrite_exact, shake0_exact; shake_1 / matrix are tied by this correspondence only", direct_failed)
+                   "the pass theorems of C01*.v and the scope theorems (scope_all_sound, scope_quant_all_sound); outside the scopes the passes are tied by this correspondence", direct_failed)
     common.proof_gate(ck, bool(direct_failed))
 
 
